@@ -20,6 +20,7 @@ func init() {
 
 func runC17(r *Run) {
 	w := r.W
+	ord17 := Ord{}
 	r.Rule("C17.1", "WMC/PROV: only the three broadcast helpers send on ConsensusBroadcaster.Outgoing* channels; payloads are built from the view parameter only")
 	r.Rule("C17.2", "broadcastAll reaches all three helpers; the diff falls back to broadcastAll unless height and round are equal; the first update is broadcast in full; nil-voted round precommits are broadcast unconditionally")
 	r.Rule("C17.3", "the updates-only predicate is strictly monotone in per-target signer sets (no cardinality of a cross-target union)")
@@ -91,6 +92,18 @@ func runC17(r *Run) {
 			}
 		}
 		r.Check(okAll, "C17.2", "tmgossip.ChattyStrategy.broadcastViewDiff(fallback)", w.Pos(fn.Pos()), "a view for another height or round is broadcast in full")
+	}
+	// the count-based diff is only meaningful between two snapshots of the same height and round:
+	// every call of broadcastUpdatesOnly, wherever it is, compares its own two view arguments for
+	// equal height and equal round first
+	for _, cs := range w.CallersOf(w.FuncsInPkg("tm/tmgossip"), "tmgossip.ChattyStrategy.broadcastUpdatesOnly") {
+		ca := w.A(cs.Fn)
+		prev, cur := ca.sh.Of(CallArg(cs.Instr, 2)).String(), ca.sh.Of(CallArg(cs.Instr, 3)).String()
+		con := ord17.Next(FuncName(cs.Fn) + "->broadcastUpdatesOnly")
+		okH := ca.IfEdgesAlt(Spec("("+cur+".RoundView.Height == "+prev+".RoundView.Height)", true, nil), Spec("("+prev+".RoundView.Height == "+cur+".RoundView.Height)", true, nil))
+		okR := ca.IfEdgesAlt(Spec("("+cur+".RoundView.Round == "+prev+".RoundView.Round)", true, nil), Spec("("+prev+".RoundView.Round == "+cur+".RoundView.Round)", true, nil))
+		r.Check(len(okH) > 0 && len(okR) > 0 && ca.EveryPathTakes(cs.Instr, okH) && ca.EveryPathTakes(cs.Instr, okR), "C17.2", con, w.InstrPos(cs.Instr),
+			"the updates-only diff of "+truncate(prev, 60)+" and "+truncate(cur, 60)+" must be guarded by their heights and rounds being equal (otherwise equal counts hide a different round's content, which is then never sent)")
 	}
 	k := w.Fn("tmgossip.ChattyStrategy.kernel")
 	if k == nil {
